@@ -215,7 +215,7 @@ PROPERTIES = {
         assumptions=[SHAPE_ASSUMPTION, "cast-free rule tests cannot influence each other: decided under C08 (R-PURE)"],
     ),
     "C07": dict(
-        rules=[r_raise_c07_validate, r_raise_c07_rule_test],
+        rules=[r_raise_c07_validate, r_raise_c07_rule_test, S2.rule_guarded],
         explanation=(
             "Static exception-effect analysis (abstract interpretation over types x origins x taint) of every function reachable "
             "from Schema.validate and Rule.test with the document as tainted input of unknown JSON type: every operation applied to a "
@@ -287,7 +287,7 @@ PROPERTIES = {
         assumptions=COMMON_ASSUMPTIONS + [SHAPE_ASSUMPTION],
     ),
     "C15": dict(
-        rules=[r_pure_c15, r_escape_c15, r_raise_c07_rule_test, S2.rule_looptry, SG.rule_castinv],
+        rules=[r_pure_c15, r_escape_c15, r_raise_c07_rule_test, S2.rule_looptry, S2.rule_guarded, SG.rule_castinv],
         explanation=(
             "Clauses decided: (1) casts write only into a deep private copy (mutation analysis of Rule.test / Schema.validate: every write reachable from them targets the deepcopy, shared across a schema's rules); "
             "(2) nothing of the caller's is stored into the copy - only the freshly cast value; (3) a cast that fails (whatever the cast table's functions can raise) leaves the node and does not abort the other nodes "
